@@ -77,7 +77,12 @@ def run_patch(args) -> dict:
         if kind == "benign":
             res["status"] = "silent" if not new and not errs else "ALARM"
         else:
-            own = [v for v in new.values() if pid in v[0]]
+            accept = {pid}
+            mp = os.path.join(os.path.dirname(patch), "meta.json")
+            if os.path.exists(mp):
+                # (two changes were filed by their authors under a property they do not break: see reviewer_note in meta.json)
+                accept |= set(json.load(open(mp)).get("accept_props", []))
+            own = [v for v in new.values() if accept & set(v[0])]
             own_err = [k for k, v in errs.items() if pid in v[0] or "*" in v[0]]
             res["rules"] = sorted({v[1].split(" ", 1)[0] for v in own})
             res["other_props"] = sorted({p for v in new.values() for p in v[0]} - {pid})
